@@ -100,10 +100,22 @@ def present(rng, pr, nicks=False):
             s += sep() + ' '.join('-%d' % c for c in pr['withdrawn'])
     if pr['undeclared']:
         s += sep() + '[undeclared %s]' % ' '.join(ref(c) for c in pr['undeclared'])
-    for m, r in lines2:
-        s += sep() + '%d %s 0' % (m, ' '.join(ref(c) for c in r))
-        if rng.random() < 0.2:
-            s += ' # trailing comment 1 2 3 0\n'
+    eol = lambda: rng.choice(['\n', '\n', '\r\n', '\r', '\x0c', '\x85', '\u2028'])    # everything str.splitlines() treats as a line end
+    use_ids = (not pr.get('eqlines')) and sum(m for m, _ in lines2) <= 40 and rng.random() < 0.3
+    if use_ids:
+        # one paper per line, each with a ballot id; a few blank papers and papers for withdrawn candidates only do not change the election
+        papers = [r for m, r in lines2 for _ in range(m)]
+        rng.shuffle(papers)
+        extra = [[]] * rng.randint(0, 2) + ([[rng.choice(pr['withdrawn'])]] if pr['withdrawn'] and rng.random() < 0.5 else [])
+        papers = papers + extra
+        rng.shuffle(papers)
+        for k, r in enumerate(papers):
+            s += sep() + '(%s%d) %s 0' % (rng.choice(['b', 'id ', 'x-']), k, ' '.join(ref(c) for c in r))
+    else:
+        for m, r in lines2:
+            s += sep() + '%d %s 0' % (m, ' '.join(ref(c) for c in r))
+            if rng.random() < 0.2:
+                s += ' # trailing comment 1 2 3 0' + eol()
     eq2 = []
     for m, r in pr.get('eqlines', []):
         while m > 1 and rng.random() < 0.6:
@@ -170,7 +182,7 @@ def gen_c11(rng, n, rules):
     out = []
     for i in range(n):
         shape = rng.choice(['random', 'random', 'tie', 'prior', 'prior'])
-        pr = gen.randprofile(rng, maxc=6, maxlines=7, maxm=4, wd=True, und=False) if shape == 'random' else (gen.tieprofile(rng) if shape == 'tie' else gen.priorprofile(rng))
+        pr = gen.randprofile(rng, maxc=6, maxlines=7, maxm=4, wd=True, und=False, wdmin=rng.choice([0, 0, 2, 3]), full=rng.random() < 0.5) if shape == 'random' else (gen.tieprofile(rng) if shape == 'tie' else gen.priorprofile(rng))
         base = drive.mkblt(**pr)
         pr3, pmap, names3 = permuted(rng, pr)
         permd = drive.mkblt(**pr3)     # names are c<newid>: the harness parses subjects from names, the map carries identity
